@@ -284,7 +284,9 @@ func TestVerif(t *testing.T) {
 				c.evalCase(cs)
 				return true
 			})
-			r.Extra("cases_enumerated_all_shards", int64(i))
+			if r.Shard == 0 {
+				r.Extra("cases_enumerated_all_shards", int64(i))
+			}
 		}, false)
 	})
 }
